@@ -159,6 +159,63 @@ def sequence(rng, tier='quick'):
     return ops
 
 
+PATH_MAX = 4096
+
+
+def deep_comps(rng, total, width=None):
+    """Components 'x…<i>' whose '/'-join is at least `total` bytes long."""
+    width = width or rng.choice([200, 250, 254, 254])
+    comps, n = [], 0
+    while n < total:
+        c = ('x' * width + str(len(comps)))[:255]
+        comps.append(c); n += len(c) + 1
+    return comps
+
+
+def deep_sequence(rng):
+    """Entries whose pathnames are PATH_MAX .. 3*PATH_MAX long (edit_deep_directories: the writer chdir()s
+    into intermediate directories), with a component that cannot be created or entered at a varying depth."""
+    opts = [o for o in OPTS if rng.random() < 0.4]
+    total = rng.choice([PATH_MAX - 10, PATH_MAX, PATH_MAX + 1, PATH_MAX + 500, 2 * PATH_MAX - 20, 2 * PATH_MAX - 20,
+                        2 * PATH_MAX + 300, 2 * PATH_MAX + 300, 3 * PATH_MAX + 100])
+    comps = deep_comps(rng, total)
+    ops, mt = [], 1000000
+    kind = rng.choice(['file', 'file', 'dir', 'dir', 'fifo', 'symlink', 'hardlink'])
+    bad = rng.choice(['none', 'none', 'long', 'long', 'huge', 'file', 'file', 'symlink', 'dotdot'])
+    k = rng.randrange(1, len(comps))          # where the trouble sits
+    if bad == 'long':
+        comps[k] = 'L' * rng.choice([256, 300, 1000])
+    elif bad == 'huge':
+        comps[k] = 'H' * rng.choice([PATH_MAX - 9, PATH_MAX, PATH_MAX + 50])
+    elif bad == 'dotdot':
+        comps[k] = '..'
+    elif bad in ('file', 'symlink'):
+        pref = '/'.join(comps[:k])
+        if k > 1:
+            ops.append(ent('dir', '/'.join(comps[:k - 1]) if k > 1 else comps[0], '', '755', mt))
+        if bad == 'file':
+            ops.append(ent('file', pref, '', '644', mt + 1, 'obstacle'))
+            if rng.random() < 0.7 and 'nooverwrite' not in opts:
+                opts.append('nooverwrite')
+        else:
+            ops.append(ent('symlink', pref, rng.choice(ESCAPES), '777', mt + 1))
+    path = '/'.join(comps)
+    data = rng.choice(['', 'deep data'])
+    link = ''
+    if kind == 'symlink':
+        link = rng.choice(ESCAPES + ['x'])
+    if kind == 'hardlink':
+        link = rng.choice(['f0', path[:100]])
+        ops.append(ent('file', 'f0', '', '644', mt + 2, 'zero'))
+    ops.append(ent(kind, path, link, rng.choice(MODES), mt + 3, data if kind in ('file', 'hardlink') else ''))
+    # what comes next must still land in the target
+    ops.append(ent('file', 'after', '', '644', mt + 4, 'a'))
+    ops.append(ent('dir', 'afterdir/sub', '', '700', mt + 5))
+    if rng.random() < 0.3:
+        ops.append(ent('file', path + '/more', '', '600', mt + 6, 'm'))
+    return ['opts ' + ' '.join(opts)] + ops + ['close', 'snap']
+
+
 ALPHABET12 = [
     ('dir', 'a', ''), ('dir', 'a/b', ''), ('dir', 'a/.', ''), ('file', 'a/b', ''), ('file', 'a', ''),
     ('symlink', 'a', '../a'), ('symlink', 'a/b', '/R/a'), ('symlink', 'b', 'a'),
